@@ -9,6 +9,31 @@
 #include "h4v_err.h"
 #include "dynarray.c"
 
+typedef void *voidp;
+#ifdef H4V_CBMC
+/* Trusted model of memset for the one use in dynarray.c: zeroing the tail of a pointer array.
+ * CBMC 6.11's built-in model (array_set/array_replace on a byte view) gives spurious non-NULL
+ * pointers for non-char arrays at a symbolic offset (probed), so the tail is zeroed word by word
+ * under a loop contract.  g_ms_k is a ghost word index relative to s (the harness ties it to
+ * g_o); all other words of the tail are left arbitrary (over-approximation). */
+long g_ms_k;
+void *
+memset(void *s, int c, size_t n)
+{
+    voidp *p = s;
+    size_t w = n / sizeof(voidp);
+    __CPROVER_assert(c == 0 && n % sizeof(voidp) == 0, "H4V: memset model domain (zeroing whole pointer slots)");
+    for (size_t i = 0; i < w; i++)
+        __CPROVER_assigns(i, __CPROVER_object_from(p))
+        __CPROVER_loop_invariant(i <= w && ((0 <= g_ms_k && g_ms_k < i) ==> p[g_ms_k] == (voidp)0))
+        __CPROVER_decreases(w - i)
+    {
+        p[i] = (voidp)0;
+    }
+    return s;
+}
+#endif
+
 #ifndef DA_INCR
 #define DA_INCR 256
 #endif
@@ -20,8 +45,6 @@
 #ifndef DA_MAXN
 #define DA_MAXN (65536 + DA_INCR)
 #endif
-
-typedef void *voidp;
 
 /* ---- ghost state ----------------------------------------------------------------------
  * g_o  : ghost index ("any other element"); g_ov: the value slot g_o holds on entry (NULL when
@@ -52,17 +75,27 @@ void *DAget_elem(dynarr_p arr_ptr, int elem)
     __CPROVER_ensures((elem >= 0 && arr_ptr != NULL && elem < arr_ptr->num_elems) ==>
                       __CPROVER_return_value == arr_ptr->arr[elem]);
 
+#ifdef DA_NULLCASE /* no array: failure value, nothing touched (kept apart: no old() on NULL) */
 int DAset_elem(dynarr_p arr_ptr, int elem, void *obj)
-    __CPROVER_requires(arr_ptr == NULL || (DA_WF(arr_ptr) && DA_GHOSTS_TIED(arr_ptr, elem)))
+    __CPROVER_requires(arr_ptr == NULL)
+    __CPROVER_assigns()
+    __CPROVER_ensures(__CPROVER_return_value == FAIL);
+void *DAdel_elem(dynarr_p arr_ptr, int elem)
+    __CPROVER_requires(arr_ptr == NULL)
+    __CPROVER_assigns()
+    __CPROVER_ensures(__CPROVER_return_value == NULL);
+#else
+int DAset_elem(dynarr_p arr_ptr, int elem, void *obj)
+    __CPROVER_requires(arr_ptr != NULL && DA_WF(arr_ptr) && DA_GHOSTS_TIED(arr_ptr, elem))
     __CPROVER_requires(elem <= DA_MAXELEM)
-    __CPROVER_assigns(arr_ptr != NULL: arr_ptr->num_elems, arr_ptr->arr;
-                      arr_ptr != NULL && arr_ptr->arr != NULL: __CPROVER_object_whole(arr_ptr->arr))
-    __CPROVER_frees(arr_ptr != NULL && arr_ptr->arr != NULL: arr_ptr->arr)
+    __CPROVER_assigns(arr_ptr->num_elems, arr_ptr->arr;
+                      arr_ptr->arr != NULL: __CPROVER_object_whole(arr_ptr->arr))
+    __CPROVER_frees(arr_ptr->arr != NULL: arr_ptr->arr)
     __CPROVER_ensures(__CPROVER_return_value == SUCCEED || __CPROVER_return_value == FAIL)
-    /* negative index => FAIL (property clause), no array => FAIL */
-    __CPROVER_ensures((elem < 0 || arr_ptr == NULL) ==> __CPROVER_return_value == FAIL)
+    /* negative index => FAIL (property clause) */
+    __CPROVER_ensures(elem < 0 ==> __CPROVER_return_value == FAIL)
     /* a failure (bad argument, allocation) leaves the table as it was */
-    __CPROVER_ensures((__CPROVER_return_value == FAIL && arr_ptr != NULL) ==>
+    __CPROVER_ensures(__CPROVER_return_value == FAIL ==>
                       (arr_ptr->num_elems == __CPROVER_old(arr_ptr->num_elems) &&
                        arr_ptr->arr == __CPROVER_old(arr_ptr->arr) && DA_AT(arr_ptr, g_o) == g_ov))
     /* get(set(a,i,v),i) == v */
@@ -75,18 +108,19 @@ int DAset_elem(dynarr_p arr_ptr, int elem, void *obj)
     __CPROVER_ensures((__CPROVER_return_value == SUCCEED && g_o != elem) ==> DA_AT(arr_ptr, g_o) == g_ov);
 
 void *DAdel_elem(dynarr_p arr_ptr, int elem)
-    __CPROVER_requires(arr_ptr == NULL || (DA_WF(arr_ptr) && DA_GHOSTS_TIED(arr_ptr, elem)))
-    __CPROVER_assigns(arr_ptr != NULL && arr_ptr->arr != NULL: __CPROVER_object_whole(arr_ptr->arr))
-    __CPROVER_ensures((elem < 0 || arr_ptr == NULL) ==> __CPROVER_return_value == NULL)
-    /* returns the old value of the slot ... */
-    __CPROVER_ensures((elem >= 0 && arr_ptr != NULL) ==> __CPROVER_return_value == g_ev)
+    __CPROVER_requires(arr_ptr != NULL && DA_WF(arr_ptr) && DA_GHOSTS_TIED(arr_ptr, elem))
+    __CPROVER_assigns(arr_ptr->arr != NULL: __CPROVER_object_whole(arr_ptr->arr))
+    __CPROVER_ensures(elem < 0 ==> __CPROVER_return_value == NULL)
+    /* returns the old value of the slot (NULL when beyond the table) ... */
+    __CPROVER_ensures(elem >= 0 ==> __CPROVER_return_value == g_ev)
     /* ... clears exactly that slot ... */
-    __CPROVER_ensures((elem >= 0 && arr_ptr != NULL) ==> DA_AT(arr_ptr, elem) == NULL)
+    __CPROVER_ensures(elem >= 0 ==> DA_AT(arr_ptr, elem) == NULL)
     /* ... and nothing else (size, storage, any other slot) */
-    __CPROVER_ensures(arr_ptr != NULL ==> (arr_ptr->num_elems == __CPROVER_old(arr_ptr->num_elems) &&
-                                           arr_ptr->arr == __CPROVER_old(arr_ptr->arr) &&
-                                           arr_ptr->incr_mult == __CPROVER_old(arr_ptr->incr_mult)))
-    __CPROVER_ensures((arr_ptr != NULL && g_o != elem) ==> DA_AT(arr_ptr, g_o) == g_ov);
+    __CPROVER_ensures(arr_ptr->num_elems == __CPROVER_old(arr_ptr->num_elems) &&
+                      arr_ptr->arr == __CPROVER_old(arr_ptr->arr) &&
+                      arr_ptr->incr_mult == __CPROVER_old(arr_ptr->incr_mult))
+    __CPROVER_ensures(g_o != elem ==> DA_AT(arr_ptr, g_o) == g_ov);
+#endif
 
 int DAsize_array(dynarr_p arr)
     __CPROVER_requires(arr == NULL || DA_WF(arr))
@@ -132,6 +166,9 @@ mk_da(int elem)
     H4V_ASSUME(g_o >= 0 && g_o <= DA_MAXELEM + DA_INCR);
     g_ov = DA_AT(a, g_o);
     g_ev = elem < 0 ? NULL : DA_AT(a, elem);
+#ifdef H4V_CBMC
+    g_ms_k = (long)g_o - (long)a->num_elems; /* the ghost slot as the memset model sees it */
+#endif
     return a;
 }
 
@@ -149,28 +186,43 @@ h_da_get(void)
     H4V_CANARY("DAget_elem end");
 }
 
+/* DA_PATH selects the part of DAset_elem's input space one obligation covers (their union is
+   the whole space): 0 = index inside the table or negative; 1 = empty table (calloc path);
+   2 = non-empty table, index beyond it (realloc + zeroing path) */
+#ifndef DA_PATH
+#define DA_PATH 0
+#endif
 void
 h_da_set(void)
 {
     H4V_ND(int, elem);
     H4V_ND(voidp, obj);
-    H4V_ND(int, null_case);
     H4V_ASSUME(elem <= DA_MAXELEM);
-    dynarr_p a = mk_da(elem);
+    dynarr_p a  = mk_da(elem);
     int      n0 = a->num_elems;
-#ifdef DA_NOGROW /* the in-place path and the failures only */
-    H4V_ASSUME(elem < n0);
-#endif
-    if (null_case)
-        a = NULL;
+#ifdef DA_NULLCASE
+    a = NULL;
     int r = DAset_elem(a, elem, obj);
-    H4V_COVER(r == SUCCEED && n0 == 0, "DAset_elem first allocation");
-    H4V_COVER(r == SUCCEED && n0 > 0 && a->num_elems > n0, "DAset_elem grow path");
+#else
+#if DA_PATH == 0
+    H4V_ASSUME(elem < n0);
+#elif DA_PATH == 1
+    H4V_ASSUME(elem >= 0 && n0 == 0);
+#else
+    H4V_ASSUME(n0 > 0 && elem >= n0);
+#endif
+    int r = DAset_elem(a, elem, obj);
+#if DA_PATH == 0
     H4V_COVER(r == SUCCEED && a->num_elems == n0, "DAset_elem in-place path");
-    H4V_COVER(r == SUCCEED && a->num_elems > n0 && g_o >= n0 && g_o < a->num_elems && g_o != elem,
-              "DAset_elem ghost in the new part");
-    H4V_COVER(r == SUCCEED && a->num_elems > n0 && g_o < n0, "DAset_elem ghost in the old part, grown");
     H4V_COVER(r == FAIL, "DAset_elem fail path");
+#elif DA_PATH == 1
+    H4V_COVER(r == SUCCEED && n0 == 0 && g_o != elem && g_o < a->num_elems, "DAset_elem first allocation");
+#else
+    H4V_COVER(r == SUCCEED && a->num_elems > n0 && g_o >= n0 && g_o < a->num_elems && g_o != elem,
+              "DAset_elem grown, ghost in the new part");
+    H4V_COVER(r == SUCCEED && a->num_elems > n0 && g_o < n0, "DAset_elem grown, ghost in the old part");
+#endif
+#endif
     H4V_CANARY("DAset_elem end");
 }
 
@@ -178,13 +230,16 @@ void
 h_da_del(void)
 {
     H4V_ND(int, elem);
-    H4V_ND(int, null_case);
     dynarr_p a = mk_da(elem);
-    if (null_case)
-        a = NULL;
+#ifdef DA_NULLCASE
+    a = NULL;
+#endif
     void *r = DAdel_elem(a, elem);
+#ifndef DA_NULLCASE
     H4V_COVER(r != NULL, "DAdel_elem returns the old pointer");
-    H4V_COVER(a != NULL && elem >= a->num_elems, "DAdel_elem beyond the table");
+    H4V_COVER(elem >= a->num_elems, "DAdel_elem beyond the table");
+    H4V_COVER(elem < 0, "DAdel_elem negative index");
+#endif
     H4V_CANARY("DAdel_elem end");
 }
 
